@@ -6,7 +6,7 @@ import lentil
 from lentil.radiometry import Spectrum
 from vlib import gen
 from vlib.ref import spectrum as rs
-from vlib.runner import Skip, Violation, hyp, lentil_call
+from vlib.runner import Skip, Violation, hyp, known_predicate, known_probe, lentil_call
 from checks.c13_spectrum_arith import UNITS, grid_nm
 
 RULE = ("drawn spectra (uniform / non-uniform grids, four wavelength units); integration limits at sample points; "
@@ -100,6 +100,24 @@ def integrate(case, ctx):
 
 # --- bin ------------------------------------------------------------------------------------------------
 
+@known_predicate("simps_integer_centres")
+def _simps_int(case):
+    if case.get("probe") == "simps_integer_centres":
+        return True
+    return case.get("method") == "simps" and str(case.get("ctype", "float")).startswith("int")
+
+
+@known_probe("C15", "simps_integer_centres")
+def probe_simps_int():
+    s = Spectrum([1, 2, 3, 4, 5], [2, 2, 2, 2, 2])
+    out = np.asarray(s.bin([2, 3], preserve_power=False), dtype=float)
+    if not np.allclose(out, [2.0, 2.0]):
+        return (f"bin(interp_method='simps') with integer-typed centres truncates the half-integer mid-point edges: a "
+                f"flat spectrum of 2 binned at [2, 3] gives {out.tolist()} instead of [2.0, 2.0] (float centres "
+                f"[2., 3.] give {np.asarray(s.bin([2.0, 3.0], preserve_power=False)).tolist()})")
+    return None
+
+
 @st.composite
 def bin_case(draw, tier):
     method = draw(st.sampled_from(["trapz", "trapz", "simps"]))
@@ -140,10 +158,21 @@ def bin_case(draw, tier):
         shrink = 0.98 * min((mid - lo) / (mid - need_lo) if need_lo < mid else 1.0,
                             (hi - mid) / (need_hi - mid) if need_hi > mid else 1.0)
         centres = mid + (centres - mid) * min(shrink, 1.0)
+    ctype = draw(st.sampled_from(["float", "float", "int_array", "int_list", "float_list"]))
+    if ctype.startswith("int"):
+        ci = np.unique(np.round(centres).astype(int))
+        if len(ci) >= 2 and (method != "simps" or len(set(np.diff(ci).tolist())) == 1):
+            centres = ci.astype(float)
+        else:
+            ctype = "float"
+    force_nm = ctype.startswith("int")           # integer centres are only meaningful in the spectrum's own nm grid
+    if force_nm and draw(st.booleans()):
+        shape = "linear"
     return {"w_nm": w, "grid": grid, "shape": shape, "lin": [a, b], "seed": k, "centres_nm": centres, "cgrid": cgrid,
+            "ctype": ctype, "force_nm": force_nm,
             "method": method, "ends": draw(st.sampled_from(["symmetric", "inside"])),
             "preserve": draw(st.booleans()), "unit": draw(st.sampled_from(UNITS)),
-            "bin_unit": draw(st.sampled_from(["same", "same", "other"])), "other_unit": draw(st.sampled_from(UNITS))}
+            "bin_unit": draw(st.sampled_from(["same", "other"])), "other_unit": draw(st.sampled_from(UNITS))}
 
 
 @hyp("C15", "bin", lambda tier: bin_case(tier),
@@ -159,21 +188,27 @@ def bin_(case, ctx):
         v = rng.uniform(0, 2, size=len(w_nm))
     else:
         v = rng.uniform(-2, 2, size=len(w_nm))
-    unit = case["unit"]
+    unit = "nm" if case.get("force_nm") else case["unit"]
     f = rs.factor("nm", unit)
     s = Spectrum(w_nm * f, v.copy(), waveunit=unit)
-    bunit = unit if case["bin_unit"] == "same" else case["other_unit"]
+    bunit = unit if (case["bin_unit"] == "same" or case.get("force_nm")) else case["other_unit"]
     fb = rs.factor("nm", bunit)
     centres = case["centres_nm"] * fb
+    ctype = case.get("ctype", "float")
+    if ctype.startswith("int") and bunit == "nm":
+        centres = centres.astype(int)            # integer-typed bin centres (array or plain list)
+    carg = centres.tolist() if ctype.endswith("list") else centres
+    if _simps_int(case):
+        raise Skip("simps_integer_centres(known)")
     m, ends, pres = case["method"], case["ends"], case["preserve"]
     ctx.tag("method:" + m, "ends:" + ends, "preserve" if pres else "raw", "shape:" + case["shape"],
             "unit:" + unit, "bin_unit:" + ("same" if bunit == unit else "other"), "centres:" + case["cgrid"],
-            "grid:" + case["grid"])
+            "grid:" + case["grid"], "centre_type:" + (ctype if bunit == "nm" or not ctype.startswith("int") else "float"))
     dmin = float(np.min(np.diff(case["centres_nm"])))
     ctx.nontrivial_if(dmin < float(np.max(np.diff(w_nm))) or bunit != unit)
     w0, v0, u0 = s.wave.copy(), s.value.copy(), s.waveunit
     with lentil_call("C15.bin", f"bin({m}, ends={ends}, preserve_power={pres}, spectrum in {unit}, centres in {bunit})"):
-        out = np.asarray(s.bin(centres, interp_method=m, ends=ends, preserve_power=pres, waveunit=bunit), dtype=float)
+        out = np.asarray(s.bin(carg, interp_method=m, ends=ends, preserve_power=pres, waveunit=bunit), dtype=float)
     if out.shape != centres.shape:
         raise Violation("C15.bin.length", f"{out.shape} bins for {centres.shape} centres")
     if not np.all(np.isfinite(out)):
@@ -201,6 +236,14 @@ def bin_(case, ctx):
         if np.max(np.abs(out - exact)) > 1e-9 * sc:
             raise Violation("C15.bin.exact", f"bins of a linear spectrum differ from the exact bin integrals "
                                              f"(method {m}, ends {ends}, unit {unit}/{bunit}): {out[:3]} vs {exact[:3]}")
+    if case["shape"] == "linear" and pres and not on_end:
+        a, b = case["lin"]
+        F = lambda x: a * (x - w_nm[0]) ** 2 / 2 + b * x      # noqa: E731
+        exact = (F(edges[1:]) - F(edges[:-1]))
+        if np.max(np.abs(out / out.sum() - exact / exact.sum())) > 1e-9:
+            raise Violation("C15.bin.distribution", f"power-preserving bins of a linear spectrum are not distributed like "
+                                                    f"the exact bin integrals (method {m}, ends {ends}, centres "
+                                                    f"{np.asarray(carg)[:4].tolist()}...)")
     if pres:
         # total = integral of the spectrum samples lying inside the span of the centres (same rule)
         sel = (w_nm >= c.min()) & (w_nm <= c.max())
